@@ -6,6 +6,7 @@ import (
 	"context"
 	"encoding/json"
 	"fmt"
+	"os"
 	"sort"
 	"strings"
 	"testing"
@@ -41,8 +42,14 @@ type c15Spec struct {
 	mn, mx          [c15Dims]int64
 }
 
+// c15NoParent: the empty parent name ("") that only the root-named object can carry
+// (extension.GetParentQuotaName returns "" for it); used by the root-add stream only.
+const c15NoParent = 99
+
 func c15Name(id int) string {
 	switch id {
+	case c15NoParent:
+		return ""
 	case 0:
 		return extension.RootQuotaName
 	case 1:
@@ -55,6 +62,8 @@ func c15Name(id int) string {
 
 func c15NameID(s string) int {
 	switch s {
+	case "":
+		return c15NoParent
 	case extension.RootQuotaName:
 		return 0
 	case extension.SystemQuotaName:
@@ -888,4 +897,123 @@ func TestVerifC15(t *testing.T) {
 	h.Close("one history of 4-16 (thorough: up to 40) create/update/delete requests over <=6 names (incl. system/default), parents incl. self/descendants/unknown, " +
 		"is-parent flips, tree ids, namespaces, min/max over 3 dimensions (absent/0/small, rare negative / min>max / key mismatch), force/is-root labels in 1/8 histories, " +
 		"pod environment per request; non-trivial = >=3 accepted requests and final depth >=2; distinct by op lines")
+}
+
+// ---- root-add stream (goal: decide the suspected defect excluded by NotRootAdd) ----
+//
+// The scheduler creates the ElasticQuota object NAMED koordinator-root-quota itself
+// (pkg/scheduler/plugins/elasticquota/plugin_helper.go createRootQuotaIfNotPresent: is-parent=true,
+// parent label ""), so the webhook does receive this create request.  ValidAddQuota then executes
+// `qt.quotaHierarchyInfo[quotaInfo.Name] = make(...)` unconditionally, i.e. it REPLACES the root's child
+// set.  Oracle of this stream (one clause of "children map = inverse of the parent links"): every
+// recorded quota whose parent is the root is listed among the root's children.
+// Off unless VERIF_C15_ROOTADD=1 (the unchanged code fails it; main decides fix vs. known finding).
+func TestVerifC15RootAdd(t *testing.T) {
+	h := vOpen("C15")
+	if h == nil {
+		t.Skip("VERIF_OUT not set")
+	}
+	n := h.N(60, 600)
+	if os.Getenv("VERIF_C15_ROOTADD") != "1" {
+		n = 0
+	}
+	none := [c15Dims]int64{c15Absent, c15Absent, c15Absent}
+	for idx := 0; idx < n; idx++ {
+		r := h.Begin(idx)
+		if r == nil {
+			continue
+		}
+		rp := c15Repr{emptyListAsNil: r.Bool()}
+		cl := &c15Client{}
+		qt := NewQuotaTopology(cl)
+		store := map[int]*c15Spec{}
+		mk := func(name, parent int, isParent bool, mn int64) *c15Spec {
+			return &c15Spec{name: name, parent: parent, isParent: isParent, mn: [c15Dims]int64{mn, c15Absent, c15Absent}, mx: [c15Dims]int64{20, c15Absent, c15Absent}}
+		}
+		var plan []*c15Spec // adds; name 0 = the root-named object
+		pre := r.Range(0, 3) // quotas hanging off the root before the root object is created
+		for i := 0; i < pre; i++ {
+			plan = append(plan, mk(3+i, 0, i == 0 || r.Bool(), int64(r.Range(4, 8))))
+		}
+		if pre > 0 && r.Bool() {
+			plan = append(plan, mk(6, 3, false, int64(r.Range(0, 3)))) // a grandchild
+		}
+		root := &c15Spec{name: 0, parent: c15NoParent, isParent: true, mn: none, mx: none}
+		switch r.Intn(6) {
+		case 0:
+			root.parent = 0 // parent label names the root itself
+		case 1:
+			if pre > 0 {
+				root.parent = 3
+			}
+		case 2:
+			root.mx = [c15Dims]int64{20, c15Absent, c15Absent}
+		}
+		plan = append(plan, root)
+		for i := 0; i < r.Range(0, 2); i++ {
+			plan = append(plan, mk(7+i, 0, r.Bool(), int64(r.Range(0, 4))))
+		}
+		if r.Chance(1, 3) {
+			plan = append(plan, root) // second create of the root object: "already exist"
+		}
+		sawRoot, failed := false, false
+		for st, sp := range plan {
+			before := c15Snapshot(qt)
+			var err error
+			h.Op("%s", c15OpLine("add", sp, false))
+			obj := c15Object(sp, rp)
+			if h.Guard(func() { err = qt.ValidAddQuota(obj) }) {
+				h.Obs("panic")
+				h.Fail("C15:panic", "request %d (add %d) panicked", st, sp.name)
+				break
+			}
+			h.Obs("res %d", vB(err == nil))
+			if sp.name == 0 {
+				h.Tag(fmt.Sprintf("rootadd:%s:pre%d", c15ErrKind(err), pre))
+			} else {
+				h.Tag("add:" + c15ErrKind(err))
+			}
+			after := c15Snapshot(qt)
+			for _, l := range after.lines() {
+				h.Obs("%s", l)
+			}
+			if err != nil {
+				if strings.Join(before.lines(), "\n") != strings.Join(after.lines(), "\n") {
+					h.Fail("C15:reject-changed-state", "request %d (add %d) was rejected but the recorded topology changed", st, sp.name)
+					failed = true
+				}
+				continue
+			}
+			store[sp.name] = sp
+			if sp.name == 0 {
+				sawRoot = true
+			}
+			if after.bad != "" {
+				h.Fail("C15:undumpable", "%s", after.bad)
+				failed = true
+			}
+			for _, nm := range c15SortedKeysQ(after.qs) {
+				q := after.qs[nm]
+				if nm == 0 || q.parent != 0 {
+					continue
+				}
+				found := false
+				for _, c := range after.kids[0] {
+					if c == nm {
+						found = true
+					}
+				}
+				if !found && !failed {
+					h.Fail("C15:root-add-clears-children", "after request %d (add %d): quota %d has the root as parent but is not among the root's recorded children %v", st, sp.name, nm, after.kids[0])
+					failed = true
+				}
+			}
+		}
+		if sawRoot && pre > 0 {
+			h.Nontrivial()
+		}
+		h.End()
+	}
+	h.Close("root-add stream (VERIF_C15_ROOTADD=1 only): 0-3 quotas under the root (+ grandchild), then a create request NAMED koordinator-root-quota " +
+		"(parent label \"\" as the scheduler writes it / root / an existing quota), then more creates; non-trivial = root object accepted with >=1 quota already under the root")
 }
